@@ -24,7 +24,7 @@
 (* The parallel version splits 0..B-1 into ceil(B/P) wide slices, runs the *)
 (* serial algorithm on each and concatenates in slice order.               *)
 (***************************************************************************)
-EXTENDS Integers, Sequences, FiniteSets, FiniteSetsExt, SequencesExt, TLC
+EXTENDS Integers, Sequences, FiniteSets, FiniteSetsExt, SequencesExt, TLC, Json
 
 CONSTANTS A, B, MaxLd, MaxEl, Slices    \* Slices: TRUE = also explore every sub-range [lo,hi)
 
@@ -126,4 +126,17 @@ Whole(m) == LET pw == Piece(m, 0, B) IN
             [indptr |-> [v \in 1..(B + 1) |-> pw.ptr[v - 1]], indices |-> pw.cols]
 ParallelJoinCorrect == (pc = "block" /\ r0 = 0 /\ lo = 0 /\ hi = B /\ Ld = 1 /\ El = 1) =>
                           \A P \in 1..(B + 1) : Joined(M, P) = Whole(M)
+
+\* scenario emission: every pattern with its whole transpose (pointer array, minor indices, and for
+\* each output position the file-order number of the stored entry that must land there)
+DatOf(m) == LET e == EntriesOf(m) IN
+            FoldSeq(LAMBDA v, acc : acc \o SortedSeq({k \in 1..Len(e) : e[k].min = v}), <<>>,
+                    [j \in 1..B |-> j - 1])
+EmitAct == /\ pc = "block" /\ r0 = 0
+           /\ PrintT(<<"SCN", ToJson([rows |-> [a \in 1..A |-> SortedSeq({x - 1 : x \in M[a]})],
+                                      indptr |-> Whole(M).indptr, indices |-> Whole(M).indices,
+                                      dat |-> DatOf(M)])>>)
+           /\ pc' = "emitted" /\ UNCHANGED <<M, E, N, Ld, El, lo, hi, Ptr, r0, r1, i0, nextIdx, outMaj, outDat>>
+GenInit == Init /\ Ld = 1 /\ El = 1 /\ lo = 0 /\ hi = B
+GenSpec == GenInit /\ [][EmitAct]_vars
 =============================================================================
